@@ -180,6 +180,7 @@ func ZZ_C20_batches() {
 	carried := false
 	for c := 0; c < zzC20Calls; c++ {
 		zzsym.Region("carry-over-queue-was-used", carried)
+		carried0 := carried
 		if zzsym.Bool("restart") {
 			s = mk()
 		}
@@ -212,6 +213,14 @@ func ZZ_C20_batches() {
 			size += uint64(len(tx))
 		}
 		zzsym.Assert(size <= maxBytes, "batch-within-requested-size")
+		if !carried0 {
+			// nothing was carried over before this call: whatever defect the carry-over
+			// queue has later (C20-K1), this batch on its own continues the DA order
+			for i, tx := range res.Batch.Transactions {
+				k := len(released) + i
+				zzsym.Assert(k < len(ref) && bytes.Equal(tx, ref[k]), "batch-before-any-carry-over-continues-da-order")
+			}
+		}
 		released = append(released, res.Batch.Transactions...)
 		if len(res.BatchData) > 0 {
 			cursor = res.BatchData
